@@ -44,7 +44,25 @@ fn respond(stream: &mut TcpStream, body: &str) {
     let _ = stream.write_all(resp.as_bytes());
 }
 
-fn read_request(stream: &mut TcpStream) -> Option<String> {
+/// A read that only ends with data, end of stream, a real error, or the rig going away: the socket's read timeout is
+/// there to look at the stop flag, never to give up on a request (on a loaded machine the client may take longer than
+/// any fixed grace period between two writes of one request; dropping the connection then looked like a transport
+/// failure of the payment check to the code under test).
+fn patient_read(stream: &mut TcpStream, tmp: &mut [u8], stop: &AtomicBool) -> Option<usize> {
+    loop {
+        match stream.read(tmp) {
+            Ok(n) => return Some(n),
+            Err(e) if matches!(e.kind(), std::io::ErrorKind::WouldBlock | std::io::ErrorKind::TimedOut | std::io::ErrorKind::Interrupted) => {
+                if stop.load(Ordering::Relaxed) {
+                    return None;
+                }
+            }
+            Err(_) => return None,
+        }
+    }
+}
+
+fn read_request(stream: &mut TcpStream, stop: &AtomicBool) -> Option<String> {
     let mut buf = Vec::new();
     let mut tmp = [0u8; 4096];
     loop {
@@ -53,7 +71,7 @@ fn read_request(stream: &mut TcpStream) -> Option<String> {
             let head = String::from_utf8_lossy(&buf[..pos]).to_lowercase();
             let len = head.lines().find_map(|l| l.strip_prefix("content-length:").map(|v| v.trim().parse::<usize>().unwrap_or(0))).unwrap_or(0);
             while buf.len() < pos + 4 + len {
-                let n = stream.read(&mut tmp).ok()?;
+                let n = patient_read(stream, &mut tmp, stop)?;
                 if n == 0 {
                     return None;
                 }
@@ -61,7 +79,7 @@ fn read_request(stream: &mut TcpStream) -> Option<String> {
             }
             return Some(String::from_utf8_lossy(&buf[pos + 4..pos + 4 + len]).to_string());
         }
-        let n = stream.read(&mut tmp).ok()?;
+        let n = patient_read(stream, &mut tmp, stop)?;
         if n == 0 {
             return None;
         }
@@ -87,9 +105,9 @@ impl EvmStub {
                     Ok((mut stream, _)) => {
                         let _ = stream.set_nonblocking(false);
                         let _ = stream.set_read_timeout(Some(std::time::Duration::from_millis(200)));
-                        let (m3, u3, c3, l3, a3) = (m2.clone(), u2.clone(), c2.clone(), l2.clone(), a2.clone());
+                        let (m3, u3, c3, l3, a3, s3) = (m2.clone(), u2.clone(), c2.clone(), l2.clone(), a2.clone(), s2.clone());
                         std::thread::spawn(move || {
-                            while let Some(body) = read_request(&mut stream) {
+                            while let Some(body) = read_request(&mut stream, &s3) {
                                 *a3.lock().unwrap() = Instant::now();
                                 let v: serde_json::Value = serde_json::from_str(&body).unwrap_or(serde_json::Value::Null);
                                 // transport-level failure modes apply to the payment verification call only
